@@ -57,4 +57,5 @@ def main(tier):
     chk.run("R-ENUMUNIQUE", B.enumunique, cx.repo, floor=2)
     chk.run("R-CONSTAGREE", BRX.constagree, cx.repo, floor=3)
     chk.run("R-SUBBYTE", VX.subbyte, cx.repo, floor=3)
+    chk.run("R-INCLUDENAME", B.includename, cx.repo, floor=3)
     return chk.finish()
